@@ -404,12 +404,18 @@ func c03Perturb(seed int64, intensity int, victim int) func() {
 	fn := func(site string) {
 		k := n.Add(1)
 		if site == "proc.start" {
-			// one process per run (the victim-th to start) is held back for 15-40 ms, far longer
+			// one process per run (the victim-th to start) is held back for 25-60 ms, far longer
 			// than any grace period: a stage that should be waited for is still running long after
 			// its successors have finished
 			if s := starts.Add(1); victim >= 0 && int(s-1) == victim {
 				c03Yields.Add(1)
-				time.Sleep(time.Duration(15+(uint64(seed)>>7)%26) * time.Millisecond)
+				d := time.Duration(25+(uint64(seed)>>7)%36) * time.Millisecond
+				if (uint64(seed)>>3)%4 == 0 {
+					// now and then far longer: a bounded wait that polls with short sleeps
+					// lasts much longer than its nominal length on a busy scheduler
+					d = time.Duration(150+(uint64(seed)>>7)%100) * time.Millisecond
+				}
+				time.Sleep(d)
 				return
 			}
 		}
@@ -576,9 +582,18 @@ func (c03) Shrink(raw json.RawMessage) []any {
 			return
 		}
 		p[0].Conn = "Seq"
+		defined := map[string]bool{}
 		for _, pl := range p {
 			if len(pl.Stages) == 0 {
 				return
+			}
+			for _, s := range pl.Stages {
+				if s.K == "fdef" {
+					defined[s.X] = true
+				}
+				if s.K == "fcall" && !defined[s.X] {
+					return // a call must keep its definition
+				}
 			}
 		}
 		if len(out) >= 8 { // every candidate costs Runs executions: keep a shrinking round cheap
